@@ -97,6 +97,8 @@ var registry = []propertySpec{
 		Harnesses: []harnessSpec{
 			{Name: "VerifC02_Levels", Quick: tierSpec{Cases: 8}, Thorough: tierSpec{First: 8, Cases: 4, Split: 3}, Sched: -1,
 				Bounds: "1..2 (thorough: 3) lines x {AllowMultiLine} x {AllowInvalidIndents}; per line: symbolic level digit 0..L, tag from 7 (NOTE INDI FAM HUSB NAME ZZ 7), optional 1-byte xref, 1 or 2 blanks, value of 0/1/2 printable bytes (incl. blank, '@', digits), terminator LF/CR/CRLF/LFLF"},
+			{Name: "VerifC02_NormalForm", Quick: tierSpec{Cases: 16}, Thorough: tierSpec{Cases: 16}, Sched: -1,
+				Bounds: "4-line files with a run of 1..3 symbolic blanks / tabs after the level, after the xref, or around the value, or with 2 hostile bytes (0x20..0x7e) inside the xref x all option combinations: accepted files have '@'-free pointers and a fixpoint normal form"},
 			{Name: "VerifC02_Shape", Quick: tierSpec{Cases: 12}, Thorough: tierSpec{Cases: 16}, Sched: -1,
 				Bounds: "files of 4, 5 and 6 (thorough 7) lines with fixed tags and values in which every level digit after the first line is symbolic 0..3: all walks (descents, dedents over several levels, too-deep lines after a dedent) x {AllowInvalidIndents} x {plain tags, a family with HUSB / CHIL / WIFE lines}"},
 		},
@@ -125,6 +127,8 @@ var registry = []propertySpec{
 				Bounds: "trees of 1..3 nodes (star and chain), every node one of 8 kinds (plain, BIRT, RESI, EVEN, DATE in 5 forms, _UID valid/malformed, NAME, PLAC) with symbolic value bytes / year digits"},
 			{Name: "VerifC07_Permute", Quick: tierSpec{Cases: 3}, Thorough: tierSpec{Cases: 3, Split: 3}, Sched: -1,
 				Bounds: "root with 2 or 3 children of the 8 kinds, with 2 children optionally one grandchild (plain or DATE) each; all 2!/3! orders"},
+			{Name: "VerifC07_PermuteDeep", Quick: tierSpec{Cases: 32}, Thorough: tierSpec{Cases: 32}, Sched: -1,
+				Bounds: "a node of each of the 8 kinds with 2 or 3 children (plain, PLAC, NAME with symbolic values, optionally an exact-year DATE) against a copy with every re-ordering of those children, directly and inside a root"},
 			{Name: "VerifC07_Symmetry", Quick: tierSpec{Cases: 4}, Thorough: tierSpec{Cases: 4}, Sched: -1,
 				Bounds: "two independent chains of 1..2 nodes of the 8 kinds with symbolic data"},
 			{Name: "VerifC07_Edit", Quick: tierSpec{Cases: 18}, Thorough: tierSpec{Cases: 18}, Sched: -1,
@@ -139,8 +143,8 @@ var registry = []propertySpec{
 		Harnesses: []harnessSpec{
 			{Name: "VerifC08_Diff", Quick: tierSpec{Cases: 36, Split: 2}, Thorough: tierSpec{Cases: 36, Split: 2}, Sched: -1,
 				Bounds: "two independent trees: root with 0..2 children (plain with symbolic value in {A,B}, BIRT, RESI, DATE with symbolic year), the first child of either tree optionally with a grandchild; then every sequence of two diff operations from {String, IsDeepEqual, Sort, Tag}"},
-			{Name: "VerifC08_Equal", Quick: tierSpec{Cases: 6}, Thorough: tierSpec{Cases: 6}, Sched: -1,
-				Bounds: "a tree with 1..3 children (optional grandchild) and every reordering of a deep copy; plus one uniquely tagged extra leaf at depth 1 and at depth 2; IsDeepEqual against the harness's own recursion over the entries"},
+			{Name: "VerifC08_Equal", Quick: tierSpec{Cases: 9}, Thorough: tierSpec{Cases: 9}, Sched: -1,
+				Bounds: "a tree with 1..3 children (0, 1 or 2 grandchildren under the first, equal ones included) and every reordering of a deep copy; plus one uniquely tagged extra leaf at depth 1 and at depth 2; IsDeepEqual against the harness's own recursion over the entries"},
 		},
 		Assumptions: []string{"values: one symbolic byte in A..C, years 1900..1901 (so that every Equals pattern among siblings occurs)"},
 		Outside:     "trees with more than 2 children per side in the independent case, sequences of more than two diff operations, node kinds other than plain/BIRT/RESI/DATE",
@@ -173,11 +177,13 @@ var registry = []propertySpec{
 				Bounds: "three symbolic year-granularity dates, maxYears = 3 (the other 8 granularity pairs do not terminate within the budget and are not claimed)"},
 			{Name: "VerifC12_Weighted", Quick: tierSpec{Cases: 2}, Thorough: tierSpec{Cases: 2}, Sched: -1,
 				Bounds: "four symbolic component scores in [0,1]; default weights and symbolic non-negative weights summing to 1"},
+			{Name: "VerifC12_Surrounding", Quick: tierSpec{Cases: 32}, Thorough: tierSpec{Cases: 32}, Sched: -1,
+				Bounds: "two individuals (one symbolic given-name byte each) whose parents family and spouse-and-child family are present or missing independently on each side (4 x 4 shapes) x forced / skippable full calculation"},
 			{Name: "VerifC12_Individual", Quick: tierSpec{Cases: 81}, Thorough: tierSpec{Cases: 81}, Sched: -1,
 				Bounds: "two individuals: given name of 0..2 symbolic bytes over {a,b,c}, birth year symbolic 1800..1803 / unparsable / missing; lists of 2 and 1"},
 		},
 		Assumptions: []string{"float64 sums and products of symbolic scores are modelled as reals followed by a sound rounding operator (the upper bound is proved with slack 1e-10); Jaro scores are concrete IEEE values on every path (the byte comparisons are the symbolic part)"},
-		Outside:     "strings longer than 5 (thorough 7) bytes, non-ASCII names in StringSimilarity, family similarity with depth > 0, exact last-ulp behaviour of symbolic float expressions",
+		Outside:     "strings longer than 5 (thorough 7) bytes, non-ASCII names in StringSimilarity, family similarity with depth > 0 other than through SurroundingSimilarity, exact last-ulp behaviour of symbolic float expressions",
 	},
 	{
 		ID:    "C13",
@@ -261,6 +267,8 @@ var registry = []propertySpec{
 				Bounds: "birth in 1800 and death in 1799/1800/1860/1900/1904 (by choice), days 1..28 symbolic, months by choice; extra unparsable dates / SEX lines by case"},
 			{Name: "VerifC20_EventOrder", Quick: tierSpec{Cases: 27}, Thorough: tierSpec{Cases: 27}, Sched: -1, Solver: "cvc5",
 				Bounds: "baptism, death and burial as exact days (day 1..28 symbolic, month Jan/Jun/Dec by choice, year 1850; death also 1851) in every relative order, with a valid, missing or unparsable birth"},
+			{Name: "VerifC20_BadMarriage", Quick: tierSpec{Cases: 4}, Thorough: tierSpec{Cases: 4}, Sched: -1, Solver: "cvc5",
+				Bounds: "a marriage with an unparsable date, an impossible day, a phrase or no date; husband's birth an exact day (day symbolic, month and year 1800/1960 by choice)"},
 			{Name: "VerifC20_Spouses", Quick: tierSpec{Cases: 16}, Thorough: tierSpec{Cases: 16}, Sched: -1,
 				Bounds: "all 4x4 combinations of husband / wife SEX values (M, F, missing, U)"},
 		},
@@ -273,12 +281,12 @@ var registry = []propertySpec{
 		Harnesses: []harnessSpec{
 			{Name: "VerifC15_Eval", Pkg: "q", Quick: tierSpec{Cases: 5}, Thorough: tierSpec{Cases: 8, Split: 2}, Sched: -1,
 				Bounds: "source (9 forms) | stage (42 templates: accessors, unknown accessors, First/Last/Length/Only/Combine/NodesWithTagPath/MergeDocumentsAndIndividuals with right and wrong argument counts, objects, variables, operators; numeric arguments as symbolic digits) with one stage on 4 document sets and two stages on the small family (thorough: two stages on all 4) (small family, empty, single person, two documents); every result to all five formatters"},
-			{Name: "VerifC15_Special", Pkg: "q", Quick: tierSpec{Cases: 38}, Thorough: tierSpec{Cases: 38}, Sched: -1,
-				Bounds: "19 hostile programs (self-referential variables, nil pipelines, deep .Nodes chains, syntax garbage) on 2 document sets"},
+			{Name: "VerifC15_Special", Pkg: "q", Quick: tierSpec{Cases: 50}, Thorough: tierSpec{Cases: 50}, Sched: -1,
+				Bounds: "25 hostile programs (self-referential variables, nil pipelines, deep .Nodes chains, pipelines over lists of lists, syntax garbage) on 2 document sets"},
 			{Name: "VerifC15_Accessors", Pkg: "q", Quick: tierSpec{Cases: 40}, Thorough: tierSpec{Cases: 40}, Sched: -1,
 				Bounds: "every accessor that reflection exposes (the list printed by 'source | ?') applied to 10 sources (document, individuals, families, names, births, husbands, nodes, strings, a number) on 4 document sets, every result to all five formatters"},
-			{Name: "VerifC15_Arguments", Pkg: "q", Quick: tierSpec{Cases: 26 * 3 * 2}, Thorough: tierSpec{Cases: 26 * 3 * 2}, Sched: -1,
-				Bounds: "26 calls with negative, non-numeric, huge, nested and ill-typed arguments x 3 sources x 2 document sets"},
+			{Name: "VerifC15_Arguments", Pkg: "q", Quick: tierSpec{Cases: 40 * 3 * 2}, Thorough: tierSpec{Cases: 40 * 3 * 2}, Sched: -1,
+				Bounds: "40 calls with negative, non-numeric, huge, nested and ill-typed arguments x 3 sources x 2 document sets"},
 			{Name: "VerifC15_Parse", Pkg: "q", Quick: tierSpec{Cases: 4}, Thorough: tierSpec{Cases: 4}, Sched: -1,
 				Bounds: "every query of 0..3 printable ASCII bytes (all bytes symbolic) through tokenizer and parser"},
 		},
@@ -293,8 +301,8 @@ var registry = []propertySpec{
 				Bounds: "both operands are strings of 0..2 (thorough 0..3) symbolic bytes over digits, '.', '-', '+', blank, tab, b/B/z/Z; all six operators through the real BinaryExpr against a reference order written from the statement (numbers as exact rationals)"},
 			{Name: "VerifC16_OperatorsParsed", Pkg: "q", Quick: tierSpec{Cases: 29}, Thorough: tierSpec{Cases: 29}, Sched: -1,
 				Bounds: "28 concrete operand pairs in the spellings outside the symbolic alphabet (exponents, hex, underscores, inf, nan, long mantissas, non-ASCII) and one symbolic byte per side, written as the query \"l\" op \"r\" through tokenizer, parser and engine"},
-			{Name: "VerifC16_Functions", Pkg: "q", Quick: tierSpec{Cases: 26 * 5}, Thorough: tierSpec{Cases: 26 * 5}, Sched: -1,
-				Bounds: "26 queries (accessor chains over Document/Individual/Family/Name, First/Last with a symbolic digit 0..9, Length, Only with a symbolic literal, Combine, NodesWithTagPath, objects, variables) on family documents of 0..4 people whose name bytes are symbolic; JSON of the result against JSON of the value computed with the Go API"},
+			{Name: "VerifC16_Functions", Pkg: "q", Quick: tierSpec{Cases: 28 * 5}, Thorough: tierSpec{Cases: 28 * 5}, Sched: -1,
+				Bounds: "28 queries (accessor chains over Document/Individual/Family/Name, First/Last with a symbolic digit 0..9, Length, Only with a symbolic literal, Combine, NodesWithTagPath, objects, variables) on family documents of 0..4 people whose name bytes are symbolic; JSON of the result against JSON of the value computed with the Go API"},
 			{Name: "VerifC16_Algebra", Pkg: "q", Quick: tierSpec{Cases: 7 * 4}, Thorough: tierSpec{Cases: 7 * 4}, Sched: -1, MapOrder: true,
 				Bounds: "7 list expressions x 5 following stages x 0..3 people: variable inlining, repeatability (under 4 map iteration orders), Combine(E,E) doubling, Only(p)/Only(not p) partition and order"},
 		},
